@@ -2,7 +2,7 @@
    for an io.Reader, is an EMPTY chunk of the chunk list ([read1] on an empty head
    chunk returns ([], None) and drops it; [read_full_aux] steps over it).
    Definitions only: the chunk list without its empty chunks, the number of idle
-   reads, "no idle read between the last byte and the end of the stream". *)
+   reads, "the transport idles between its last byte and the end of the stream". *)
 Require Import Bytes Stream Reader.
 Open Scope N_scope.
 
@@ -19,13 +19,6 @@ Definition idle_reads (s : src) : nat := idle_chunks (chunks s).
 
 (* the transport answers (0, nil) after its last byte, right before the end *)
 Definition ends_idle (s : src) : Prop := exists cs, chunks s = cs ++ [[]].
-
-(* the same, structurally: the last chunk, if any, is not empty *)
-Fixpoint nt_chunks (cs : list (list byte)) : Prop :=
-  match cs with
-  | [] => True
-  | c :: cs' => match cs' with [] => c <> [] | _ => nt_chunks cs' end
-  end.
 
 (* the Reader on the stripped transport *)
 Definition strip_reader (r : reader) : reader := set_src r (strip (r_src r)).
